@@ -102,13 +102,48 @@ def parse(ns, text, wfilter='always'):
             return None, e
 
 
-def step(ns, ro_text, msg_text, wfilter='always'):
+def touch(ro):
+    """Read every documented read accessor of a running order once (results and exceptions are
+    ignored).  Used before a merge so that an accessor that caches what it computed is exposed
+    when the same live object is read again after the merge."""
+    import io
+    import contextlib
+    with warnings.catch_warnings():
+        warnings.simplefilter('ignore')
+        for name in ('completed', 'ro_slug', 'start_time', 'end_time', 'duration', 'script', 'body',
+                     'message_id', 'ro_id', 'base_tag', 'stories'):
+            try:
+                v = getattr(ro, name)
+                if name == 'stories':
+                    for s in v:
+                        for sn in ('id', 'slug', 'items', 'duration', 'offset', 'start_time', 'end_time', 'script', 'body'):
+                            try:
+                                x = getattr(s, sn)
+                                if sn == 'items' and x:
+                                    for it in x:
+                                        (it.id, it.slug, it.type, it.object_id, it.mos_id, it.note)
+                            except Exception:  # noqa
+                                pass
+            except Exception:  # noqa
+                pass
+        try:
+            repr(ro)
+            str(ro)
+            with contextlib.redirect_stdout(io.StringIO()):
+                ro.inspect()
+        except Exception:  # noqa
+            pass
+
+
+def step(ns, ro_text, msg_text, wfilter='always', touch_before=False):
     """Parse both texts freshly, do `ro += msg`, observe."""
     o = Obs()
     ro, e = parse(ns, ro_text, wfilter)
     if e is not None:
         o.exc, o.exc_msg, o.phase = type(e).__name__, str(e), 'parse-ro'
         return o, None, None
+    if touch_before:
+        touch(ro)
     msg, e = parse(ns, msg_text, wfilter)
     if e is not None:
         o.exc, o.exc_msg, o.phase = type(e).__name__, str(e), 'parse-msg'
